@@ -218,8 +218,10 @@ def _dispatch(jobs, nproc, budget, t0, verbose=False, known_sigs=()):
             nviol = sum(1 for r in results if r['status'] == 'violation' and r.get('signature') not in known_sigs
                         and not (isinstance(r['key'], tuple) and r['key'][:1] == ('twin',)))
             if nviol >= MAX_VIOLATIONS:
-                exhausted = True  # enough counterexamples: stop exploring, report them
-            while not exhausted and len(inflight) < 3 * nproc and time.time() - t0 < budget:
+                # enough counterexamples: stop exploring, abandon what is in flight, report them
+                submitted -= len(inflight)
+                break
+            while not exhausted and len(inflight) < 2 * nproc and time.time() - t0 < budget:
                 try:
                     j = next(it)
                 except StopIteration:
@@ -271,12 +273,23 @@ def finish(mod, tier, seed, results, twin_res, not_reached, t0):
     errors = [r for r in results if r['status'] == 'error']
     viols = [r for r in results if r['status'] == 'violation']
     confirmed = []
+    tries = {}
+    done_sigs = set()
     for r in viols:
+        sig0 = r.get('signature') or repr(r['key'])
+        if sig0 in done_sigs:
+            continue  # same failure already reproduced: not replayed again
+        if tries.get(sig0, 0) >= 3:
+            r['status'] = 'inconclusive'
+            r['why'] = 'not replayed (three models with this signature already failed to reproduce)'
+            inconcl.append(r)
+            continue
+        tries[sig0] = tries.get(sig0, 0) + 1
         try:
             import fxv.env  # noqa: F401
             limit = getattr(mod, 'CASE_TIMEOUT', {}).get(tier, 60 if tier == 'quick' else 300)
             if r.get('kind') == 'nonterm':
-                reproduced, msg = _replay_nonterm(mod, r['key'], limit)
+                reproduced, msg = _replay_nonterm(mod, r['key'], min(limit, 30))
             else:
                 signal.signal(signal.SIGALRM, _alarm)
                 signal.alarm(int(limit))
@@ -295,6 +308,7 @@ def finish(mod, tier, seed, results, twin_res, not_reached, t0):
             inconcl.append(r)
             continue
         confirmed.append(r)
+        done_sigs.add(sig0)
     seen_sig = set()
     for r in confirmed:
         sig = r.get('signature') or repr(r['key'])
@@ -310,7 +324,8 @@ def finish(mod, tier, seed, results, twin_res, not_reached, t0):
         with open(path, 'w') as f:
             json.dump(dict(property=prop, key=_jsonable(r['key']), key_repr=repr(r['key']), tier=tier, seed=seed,
                            what=r.get('what'), signature=sig, model=r.get('model', {}),
-                           replay_msg=r.get('replay_msg')), f, indent=1)
+                           replay_msg=r.get('replay_msg'), kind=r.get('kind'), variant=r.get('variant'),
+                           which=r.get('which'), twin=r.get('twin', False)), f, indent=1)
         lines.append(f'VIOLATION property={prop} replay={path}')
         print(f'# {r.get("what")} :: {r.get("replay_msg")}')
         n_viol_new += 1
@@ -418,7 +433,10 @@ def do_replay(mod, path):
     except Exception:  # noqa: BLE001
         key = rec['key']
     import fxv.env  # noqa: F401
-    reproduced, msg = mod.replay(key, rec.get('model', {}), rec)
+    if rec.get('kind') == 'nonterm':
+        reproduced, msg = _replay_nonterm(mod, key, 30)
+    else:
+        reproduced, msg = mod.replay(key, rec.get('model', {}), rec)
     print(('REPRODUCED: ' if reproduced else 'not reproduced: ') + msg)
     if reproduced:
         print(f'VIOLATION property={mod.ID} replay={path}')
